@@ -352,6 +352,57 @@ def later_field_part(ctx):
                            "header was answered %s%s" % (op, tag, g // 10, g % 10, lo // 10, lo % 10, key,
                                                         "" if obs[0]["unchanged"] else " and the store changed"),
                            {"kind": "later-field", "frame": bytes(b).hex(), "tag": tag, "gate": g, "under": lo})
+        # authenticated encryption (KMIP 1.4 fields of Encrypt / Decrypt): a real GCM conversation under 1.4 first, so
+        # that a Decrypt carrying the tag WOULD succeed if the field were accepted below 1.4
+        from kmip.core import utils as _u
+        from kmip.core.messages import messages as _m, contents as _c
+        rig.restore(snap)
+        cp = {"mode": 9, "padding": None, "alg": 3, "taglen": 16}
+
+        def enc_item(aad=None):
+            it = {"op": "encrypt", "bid": None, "crypto": None, "uid": "1", "params": True, "cp": cp,
+                  "data_hex": "11" * 32, "iv_hex": "22" * 12}
+            if aad:
+                it["aad_hex"] = aad
+            return it
+        pre = [G.encode_request(G.mkreq(14, [{"op": "activate", "bid": None, "crypto": None, "uid": "1"}])),
+               G.encode_request(G.mkreq(14, [enc_item()]))]
+        res = rig.run_session([b"".join(pre)], S.make_cert(), digests=False)
+        ct = tag = None
+        try:
+            mm = _m.ResponseMessage()
+            mm.read(_u.BytearrayStream(res["out"][1]), kmip_version=_c.protocol_version_to_kmip_version(_c.ProtocolVersion(1, 4)))
+            pl = mm.batch_items[0].response_payload
+            ct, tag = pl.data, pl.auth_tag
+        except Exception:
+            pass
+        gcm = {"conversation": ct is not None and tag is not None}
+        if ct is not None and tag is not None:
+            snap2 = rig.snapshot()
+            dec = {"op": "decrypt", "bid": None, "crypto": None, "uid": "1", "params": True, "cp": cp,
+                   "data_hex": ct.hex(), "iv_hex": "22" * 12, "tag_hex": tag.hex()}
+            for label, item, tagno in (("decrypt+tag", dec, 0x4200FF), ("encrypt+aad", enc_item("33" * 8), 0x4200FE)):
+                fr = G.encode_request(G.mkreq(14, [item]))
+                for lo in (14, 13, 12):
+                    b = bytearray(fr)
+                    idx = G.ttlv_index(fr)
+                    mn = [e for e in idx if e["tag"] == 0x42006B]
+                    b[mn[0]["off"] + 8:mn[0]["off"] + 12] = (lo % 10).to_bytes(4, "big")
+                    rig.restore(snap2)
+                    r2 = rig.run_session([bytes(b)], S.make_cert(), digests=False)
+                    obs = [o for o in c12.observe(rig, r2) if o["k"] == "handled"]
+                    its = obs[0]["obs"]["items"] if obs and obs[0]["obs"] else []
+                    key = "/".join("%s:%s" % (i["status"], i["reason"]) for i in its)
+                    gcm["%s@%d" % (label, lo)] = key
+                    n += 1
+                    if lo < 14 and any(i["status"] == "SUCCESS" for i in its):
+                        ctx.report("c16:later-field-accepted:%s:tag-%06X:under-%d" % (item["op"], tagno, lo),
+                                   "a %s request carrying the KMIP 1.4 field with tag 0x%06X under a KMIP 1.%d header was "
+                                   "answered %s (under 1.4 the same request is answered %s)"
+                                   % (item["op"], tagno, lo % 10, key, gcm.get("%s@14" % label)),
+                                   {"kind": "later-field", "frame": bytes(b).hex(), "tag": tagno, "gate": 14, "under": lo,
+                                    "prefix": [f.hex() for f in pre]})
+        ctx.coverage["later_field_gcm_conversation"] = gcm
     finally:
         rig.close()
     ctx.coverage["later_field_frames"] = n
@@ -368,6 +419,8 @@ def replay_later_field(ctx, rep):
     try:
         snap = c12.setup_base(rig)
         rig.restore(snap)
+        if r.get("prefix"):
+            rig.run_session([b"".join(bytes.fromhex(f) for f in r["prefix"])], S.make_cert(), digests=False)
         res = rig.run_session([bytes.fromhex(r["frame"])], S.make_cert(), digests=False)
         obs = [o for o in c12.observe(rig, res) if o["k"] == "handled"]
         if len(obs) != 1 or obs[0]["obs"] is None:
